@@ -891,14 +891,18 @@ def RetKind.needsStructure : RetKind → Bool
 /-- Does the emitted module import `structure_from_dict`?  `context.add_import(…, "structure_from_dict")`
     is executed by `_write_strategy_based_return` for a non-streaming, non-`Union` return type that uses
     cattrs (response_handler_generator.py:567-570) and by the per-response arm of another 2xx response
-    that uses cattrs (`_register_cattrs_import`, line 479); the `Union` content-type dispatch writes the
-    call WITHOUT registering the import.
+    that uses cattrs (`_register_cattrs_import`, line 479) and, since the repair of F58, by the `Union`
+    content-type dispatch for each entry that uses cattrs.
     ASSUMPTION: the operation is alone in its tag module (imports are collected per module; a sibling
     operation could supply the import). -/
+def Strategy.usesStructure : Strategy → Bool
+  | .single t => useCattrs t
+  -- `_write_content_type_conditional_handling` registers the import for every cattrs entry it writes (repaired F58)
+  | .union m => m.any (fun e => useCattrs e.2)
+  | _ => false
+
 def importsStructure (rs : List Resp) : Bool :=
-  ((match resolveStrategy rs with
-    | .single t => useCattrs t
-    | _ => false) &&
+  ((resolveStrategy rs).usesStructure &&
    ((processedPrimary rs).isSome || defaultAction rs == .retStrategy)) ||
   (otherResponses rs).any (fun r => match otherArm r with
     | some (_, .retSecondary k) => k.needsStructure
